@@ -1,5 +1,6 @@
 import Cell2v.Lemmas.SceneM
 import Cell2v.Lemmas.SceneMSys
+import Cell2v.Lemmas.SceneMNode
 /-!
 C19 — property theorems (MMO scene manager: live scenes and their line numbers
 stay consistent).  Only property statements, non-vacuity examples and the
@@ -630,6 +631,176 @@ theorem late_confirm_registers_on_lost_service :
     (Sys.init.run (lateConfirm ++ [.adv 3000, .tick])).m.world.scenes = [⟨1, 100, 0, 1⟩] := by
   decide
 
+/-! ## The manager as the node runs it: the public-scene table, whole keeper rounds, the service's three timers
+
+`NReachable n`: `n` is the state after ANY list of node events — every system event (a refresh also starts the
+keeper), `addPublicScene`, a whole `PublicScenes.Update` over the table, and the service's loop serving its timer
+queue (keep-alive check armed by `SceneServiceMgr.Start`, keeper armed by `PublicScenes.Start`, the request
+layer's expiry check armed by the first request) — from `NewService` + `Start`, for either value of the two
+configuration switches `Init` reads. -/
+
+def NReachable (n : Node) : Prop := ∃ perf pub evs, n = (Node.init perf pub).run evs
+
+/-- **Node histories are system histories** (a keeper round is a list of `trySpawnScene` events, a served timer is a
+periodic check / a round / failed answers for the requests past their deadline): so every theorem about system
+histories — bijection, sorted unique line numbers, smallest free line, exact removal, requests, id discipline —
+holds for the node with its real timers, with no hypothesis. -/
+theorem node_history_is_system_history {n : Node} (h : NReachable n) : SReachable n.sys ∧ Reachable n.sys.m := by
+  obtain ⟨perf, pub, evs, rfl⟩ := h
+  obtain ⟨sevs, h1, _⟩ := node_run_sys (Node.init perf pub) evs
+  have hs : SReachable ((Node.init perf pub).run evs).sys := ⟨sevs, h1⟩
+  exact ⟨hs, sys_history_admissible hs⟩
+
+/-- … and placement holds over node histories: when the map orders are orders of the maps and the timer queue is in
+firing order, every live scene and every request in flight was placed on a known, working, least-busy service. -/
+theorem node_placement_over_histories (perf pub : Bool) (evs : List NEv) (hok : NOkRun (Node.init perf pub) evs) :
+    ∃ sevs, ((Node.init perf pub).run evs).sys = Sys.init.run sevs ∧ OkRun Sys.init sevs ∧
+      ∀ o ∈ ((Node.init perf pub).run evs).sys.m.world.scenes,
+        ∃ pre post order e, SEv.places e o.cfg order ∧ sevs = pre ++ e :: post ∧ (Sys.init.run pre).m.nextId = o.sid ∧
+          ∃ v, (o.svc, v) ∈ (Sys.init.run pre).m.services ∧ v.working = true ∧
+            ∀ x ∈ (Sys.init.run pre).m.services, x.2.working = true → satKey v.n ≤ satKey x.2.n := by
+  obtain ⟨sevs, h1, h2⟩ := node_run_sys (Node.init perf pub) evs
+  refine ⟨sevs, h1, h2 hok, fun o ho => ?_⟩
+  have := (placement_over_histories sevs (h2 hok)).1
+  rw [h1] at ho
+  exact this o ho
+
+/-- **The public-scene table** has one entry per configuration after every history; `addPublicScene` keeps an
+existing entry (the first registration wins) and appends a new one. -/
+theorem public_table_keys_unique {n : Node} (h : NReachable n) : (n.table.map (·.1)).Nodup := by
+  obtain ⟨perf, pub, evs, rfl⟩ := h
+  exact (nodeInv_run (nodeInv_init perf pub) evs).keys
+
+theorem add_public_first_wins (t : List (Nat × Nat)) (cfg k k' : Nat) :
+    ((cfg, k) ∈ t → addPublic t cfg k' = t) ∧ ((∀ e ∈ t, e.1 ≠ cfg) → addPublic t cfg k' = t ++ [(cfg, k')]) :=
+  ⟨addPublic_first_wins t cfg k k', addPublic_new t cfg k'⟩
+
+/-- the table `Init` builds: with both switches set (as in the repository) the performance-test numbers win -/
+theorem init_table :
+    initTable true true = [(100, 1), (101, 50), (102, 50)] ∧ initTable false true = [(100, 1), (101, 5), (102, 5)] ∧
+    initTable true false = [(100, 1), (101, 50), (102, 50)] ∧ initTable false false = [] := by decide
+
+/-- **The keeper starts with the first scene service**: its timer is armed exactly when some service has reported
+(`OnServiceRefresh → … → PublicScenes.Start`, idempotent). -/
+theorem keeper_starts_with_first_service {n : Node} (h : NReachable n) : n.keeperDue = none ↔ n.sys.m.services = [] := by
+  obtain ⟨perf, pub, evs, rfl⟩ := h
+  exact (nodeInv_run (nodeInv_init perf pub) evs).started
+
+/-- **A whole keeper round** (`PublicScenes.Update`), for every order in which the table and the service map are
+visited: it registers nothing and touches no service; the requests it sends are appended to those in flight,
+at most one per configuration, each for an entry of the table whose configuration has fewer confirmed lines
+than required, each with a fresh id. -/
+theorem keeper_round_asks_only_below_need {n : Node} (hk : (n.table.map (·.1)).Nodup) (visits : List Visit)
+    (hv : VisitsOk n.table n.sys.m.services visits) :
+    (n.update visits).sys.m.world = n.sys.m.world ∧ (n.update visits).sys.m.services = n.sys.m.services ∧
+    ∃ added : List Pend, (n.update visits).sys.pending = n.sys.pending ++ added ∧
+      (added.map (·.cfg)).Nodup ∧ added.length ≤ n.table.length ∧
+      (∀ p ∈ added, ∃ k, (p.cfg, k) ∈ n.table ∧ (n.sys.m.world.lines p.cfg).length < k) ∧
+      (∀ p ∈ added, n.sys.m.nextId ≤ p.sid ∧ p.sid < (n.update visits).sys.m.nextId) := by
+  obtain ⟨w, sv, _, _, _, added, hp, hsub, hneed, hids⟩ := runVisits_char n.sys visits
+  have hperm : (visits.map (·.1.1)).Perm (n.table.map (·.1)) := by
+    have := hv.1.map (·.1)
+    rw [List.map_map] at this
+    exact this
+  refine ⟨w, sv, added, hp, hsub.nodup (hperm.nodup_iff.2 hk), ?_, fun p hpm => ?_, hids⟩
+  · have h1 := hsub.length_le
+    have h2 := hperm.length_eq
+    simp only [List.length_map] at h1 h2
+    omega
+  · obtain ⟨v, hvm, hc, hl⟩ := hneed p hpm
+    refine ⟨v.1.2, ?_, hl⟩
+    have : v.1 ∈ visits.map (·.1) := List.mem_map.2 ⟨v, hvm, rfl⟩
+    have := hv.1.mem_iff.1 this
+    rw [← hc]; exact this
+
+/-- **The timer queue**: once the service's loop has served it (every timer that was on it ran, in whatever order)
+nothing is on it, and serving it again before the clock moves changes nothing — a timer runs once per period
+however late the queue is served. -/
+theorem timers_serve_queue_once (n : Node) (order order' : List TK) (visits visits' : List Visit)
+    (h : TK.tick ∈ order ∧ TK.keeper ∈ order ∧ TK.expiry ∈ order) :
+    (n.timers order visits).Idle ∧ (n.timers order visits).timers order' visits' = n.timers order visits :=
+  ⟨timers_idle_after n order visits h, timers_noop_of_idle _ order' visits' (timers_idle_after n order visits h)⟩
+
+/-- **A request that times out registers nothing**: the expiry check amounts to failed answers; the manager's state
+(world, services, id counter) is untouched, no request is added, and the requests it completed are no longer in flight. -/
+theorem request_timeout_registers_nothing (n : Node) :
+    n.fireExpiry.sys.m = n.sys.m ∧ (∀ p ∈ n.fireExpiry.sys.pending, p ∈ n.sys.pending) ∧
+    (n.expiryQueued = true → n.sys.pending ≠ [] → ∀ p ∈ n.expired, ∀ q ∈ n.fireExpiry.sys.pending, q.sid ≠ p.sid) ∧
+    (∀ p ∈ n.expired, p ∈ n.sys.pending ∧ ∃ d, (p.sid, d) ∈ n.deadlines ∧ d < n.sys.m.now) := by
+  have hpend : ∀ (s : Sys) (sid : Nat), (s.reply sid false).pending = s.pending.filter (fun q => q.sid != sid) := by
+    intro s sid
+    unfold Sys.reply
+    cases hf : s.pending.find? (fun p => p.sid == sid) with
+    | none =>
+      symm
+      apply List.filter_eq_self.2
+      intro q hq
+      have := List.find?_eq_none.1 hf q hq
+      simpa using this
+    | some p => rfl
+  have key : ∀ (ps : List Pend) (s : Sys),
+      (ps.foldl (fun s p => s.reply p.sid false) s).m = s.m ∧
+      (∀ q ∈ (ps.foldl (fun s p => s.reply p.sid false) s).pending, q ∈ s.pending) ∧
+      (∀ p ∈ ps, ∀ q ∈ (ps.foldl (fun s p => s.reply p.sid false) s).pending, q.sid ≠ p.sid) := by
+    intro ps
+    induction ps with
+    | nil => intro s; exact ⟨rfl, fun _ h => h, fun _ h => nomatch h⟩
+    | cons p ps ih =>
+      intro s
+      obtain ⟨a, b, c⟩ := ih (s.reply p.sid false)
+      refine ⟨a.trans (failed_reply_m s p.sid), fun q hq => ?_, fun p' hp' q hq => ?_⟩
+      · have := b q hq
+        rw [hpend] at this
+        exact (List.mem_filter.1 this).1
+      · rcases List.mem_cons.1 hp' with rfl | hp'
+        · have := b q hq
+          rw [hpend] at this
+          simpa using (List.mem_filter.1 this).2
+        · exact c p' hp' q hq
+  refine ⟨?_, ?_, ?_, ?_⟩
+  · unfold Node.fireExpiry
+    split
+    · split
+      · rfl
+      · exact (key _ _).1
+    · rfl
+  · unfold Node.fireExpiry
+    split
+    · split
+      · exact fun _ h => h
+      · exact (key _ _).2.1
+    · exact fun _ h => h
+  · intro hq hne
+    unfold Node.fireExpiry
+    rw [if_pos hq, if_neg (by simpa using hne)]
+    exact (key _ _).2.2
+  · intro p hp
+    unfold Node.expired at hp
+    obtain ⟨hp1, hp2⟩ := List.mem_filter.1 hp
+    refine ⟨hp1, ?_⟩
+    split at hp2
+    · rename_i e he
+      have hm := List.mem_of_find?_eq_some he
+      have hk := List.find?_some he
+      refine ⟨e.2, ?_, by simpa using hp2⟩
+      have : e.1 = p.sid := by simpa using hk
+      rw [← this]; exact hm
+    · cases hp2
+
+/-- **`FindIdleService` as written** (the empty string doubles as "none yet") is the model's `findIdle` whenever no
+service is registered under the empty id (service 0 here) — so `alloc_only_on_working`, `alloc_prefers_least_busy`,
+`alloc_any_least_busy_possible` speak about the code's loop. -/
+theorem findIdleGo_eq_findIdle (key : Nat → Nat) (order : List (Nat × Stat)) (h : ∀ e ∈ order, e.1 ≠ 0) :
+    findIdleGo key order = findIdle key order := findIdleGo_eq key order h
+
+/-- What is NOT guaranteed when a scene service reports under the empty id (the model mirrors mgr.go): visited after
+the empty id, a busier service replaces a less busy one that was visited earlier; and when the empty id is the best
+candidate at the end `AllocScene` answers "no service" although services are working. -/
+theorem empty_service_id_breaks_placement :
+    findIdleGo satKey [(2, ⟨3, true, 0, 0, 0⟩), (0, ⟨0, true, 0, 0, 0⟩), (1, ⟨9, true, 0, 0, 0⟩)] = some 1 ∧
+    findIdleGo satKey [(1, ⟨9, true, 0, 0, 0⟩), (0, ⟨0, true, 0, 0, 0⟩)] = none ∧
+    findIdle satKey [(2, ⟨3, true, 0, 0, 0⟩), (0, ⟨0, true, 0, 0, 0⟩), (1, ⟨9, true, 0, 0, 0⟩)] = some 0 := by decide
+
 /-! ### non-vacuity -/
 
 /-- a concrete disciplined history: two services, three scenes on two configurations,
@@ -718,5 +889,48 @@ example : (Sys.init.run (sdemo.take 10)).waiting = [3] ∧ (Sys.init.run (sdemo.
 
 /-- `keeper_spawns_only_below_need`: both branches occur -/
 example : ((Sys.init.run (sdemo.take 10)).keeper 100 2 ord1).2 = 2 ∧ (sys1.keeper 100 2 ord1).2 = 1 := by decide
+
+/-- `findIdleGo_eq_findIdle` on a map without the empty id -/
+example : findIdleGo satKey [(2, ⟨3, true, 0, 0, 0⟩), (3, ⟨0, false, 0, 0, 0⟩), (1, ⟨9, true, 0, 0, 0⟩)] = some 2 := by decide
+
+/-! ### non-vacuity (node level) -/
+
+/-- a node history: two services report (the keeper starts), a second of normal operation with the timers served
+(keep-alive check + a keeper round over the three public scenes), an answer, 31 more seconds: the two
+unanswered requests time out -/
+def ndemo : List NEv :=
+  [.sys (.route [1, 2]), .sys (.refresh 1 0), .sys (.refresh 2 7), .sys (.adv 1000),
+   .timers [.tick, .keeper, .expiry] [((100, 1), ord1n), ((101, 50), ord1n), ((102, 50), ord1n)],
+   .sys (.reply 1 true), .sys (.adv 31000),
+   .timers [.tick, .expiry, .keeper] [((101, 50), ord1n), ((102, 50), ord1n), ((100, 1), ord1n)]]
+where ord1n : List (Nat × Stat) := [(1, ⟨0, true, 0, 0, 0⟩), (2, ⟨7, true, 0, 0, 0⟩)]
+
+example : NReachable ((Node.init true true).run ndemo) := ⟨true, true, ndemo, rfl⟩
+
+/-- after the first served queue: three requests in flight (one per public scene), the expiry check armed -/
+example : ((Node.init true true).run (ndemo.take 5)).sys.pending = [⟨1, 100, 1⟩, ⟨2, 101, 1⟩, ⟨3, 102, 1⟩] ∧
+    ((Node.init true true).run (ndemo.take 5)).expiryDue = some 2000 ∧
+    ((Node.init true true).run (ndemo.take 5)).keeperDue = some 2000 := by decide
+
+/-- `request_timeout_registers_nothing`: at 32 s requests 2 and 3 (sent at 1 s) are past their deadline -/
+example : (((Node.init true true).run (ndemo.take 7)).expired).map (·.sid) = [2, 3] ∧
+    ((Node.init true true).run (ndemo.take 7)).expiryQueued = true := by decide
+
+/-- after `ndemo`: scene 1 is live on line 0 of configuration 100; the timed-out requests are gone and the keeper
+has asked again for configurations 101 and 102 (100 has its one line) -/
+example : ((Node.init true true).run ndemo).sys.m.world.scenes = [⟨1, 100, 0, 1⟩] ∧
+    (((Node.init true true).run ndemo).sys.pending.map fun p => (p.sid, p.cfg)) = [(4, 101), (5, 102)] := by decide
+
+/-- `keeper_round_asks_only_below_need` / `NEv.Ok`: the visits of `ndemo` are well-formed -/
+example : VisitsOk ((Node.init true true).run (ndemo.take 4)).table ((Node.init true true).run (ndemo.take 4)).sys.m.services
+    [((100, 1), ndemo.ord1n), ((101, 50), ndemo.ord1n), ((102, 50), ndemo.ord1n)] :=
+  ⟨by decide, by intro v hv; simp at hv; rcases hv with rfl | rfl | rfl <;> decide⟩
+
+/-- `keeper_starts_with_first_service`: both sides occur -/
+example : (Node.init true true).keeperDue = none ∧ ((Node.init true true).run (ndemo.take 2)).keeperDue = some 1000 := by decide
+
+/-- `timers_serve_queue_once`: serving the queue of `ndemo` again at once changes nothing -/
+example : ((Node.init true true).run (ndemo.take 5)).timers [.keeper, .tick, .expiry] [] = (Node.init true true).run (ndemo.take 5) :=
+  timers_noop_of_idle _ _ _ (timers_idle_after _ _ _ ⟨by decide, by decide, by decide⟩)
 
 end Cell2v.Props.C19
